@@ -8,7 +8,7 @@ class PROP(E2E):
     id = "C02"
     rule = ("end-to-end through the real client and the real TCP / RTU-over-TCP / serial RTU (pty) servers, stage by stage under re-chunking and directly over loopback sockets and a pty: every response variant (payload lengths empty..maximal, "
             "bit patterns around byte boundaries), all 256 exception code values (ExceptionCode::new(c) and raw Custom(c)), for typed and raw custom "
-            "requests, random chunkings in both directions and all compositions of short frames; sequences of exchanges on one client whose (fragmented) replies differ in length.  Oracle: the server writes exactly the spec "
+            "requests, random chunkings in both directions and all compositions of short frames; sequences of exchanges on one client whose (fragmented) replies differ in length; one TCP client through 65 600 exchanges (more than a cycle of the transaction id).  Oracle: the server writes exactly the spec "
             "encoding under the request's header; the client returns the value padded to whole bytes / the same numeric exception code; typed bit "
             "reads return exactly the requested count.  non-trivial = distinct (request, reply, chunking) with a reply")
 
@@ -80,6 +80,15 @@ class PROP(E2E):
                 ops.append(cligen.call_op(req, R=mb.rscript([p for p in parts if len(p)])))
                 wants.append("EX:%d" % pdu[1] if exc else "OK:" + mb.show_rsp(mb.pad_rsp(rsp)))
             seqs.append(Case(cligen.cli_line(proto, slave, ops), {"stage": "seq", "wants": wants, "proto": proto}))
+        # one TCP client for more than a whole cycle of the 16-bit transaction id: the 65 536th and later callers get their replies as well
+        slave, ops, wants = rng.randrange(1, 248), [], []
+        for j in range(65536 + 64):
+            v = (j * 7) & 0xFFFF
+            if j % 1000 == 999:
+                ops.append(cligen.call_op(("RHR", j & 0xFFFF, 1), R="d" + cligen.frame("tcp", j & 0xFFFF, slave, cligen.exc_pdu(3, 6)).hex())); wants.append("EX:6")
+            else:
+                ops.append(cligen.call_op(("RHR", j & 0xFFFF, 1), R="d" + cligen.frame("tcp", j & 0xFFFF, slave, bytes([3, 2, v >> 8, v & 255])).hex())); wants.append("OK:RHR:%d" % v)
+        seqs.append(Case(cligen.cli_line("tcp", slave, ops), {"stage": "seq", "wants": wants, "proto": "tcp"}))
         step = max(1, len(cs) // (len(seqs) + 1))
         for i, d in enumerate(seqs):
             cs.insert(min(len(cs), (i + 1) * step + i), d)
